@@ -2,10 +2,70 @@
    Statements only.  (push_preserves and its corollaries are added from
    Eval/PushSem.v.) *)
 From Coq Require Import List Arith.
-From LF Require Import Base.Opcode Base.Num Base.Arena Eval.Deck Eval.Push.
+From LF Require Import Base.Opcode Base.Num Base.Arena Eval.Deck Eval.Push Eval.PushSem.
 
 (* a terminal tape (no min/max left) is a fixed point of push *)
 Theorem C05_terminal_fixpoint :
   forall n (fn : clause -> keep) (t : tape), t_terminal t = true -> tape_push n fn t = t.
 Proof. intros n fn t H; unfold tape_push; rewrite H; reflexivity. Qed.
 Print Assumptions C05_terminal_fixpoint.
+
+(* Tape::push preserves the value of the root and of every kept clause, shortens
+   the tape, and yields a well-formed tape again (so pushes nest), whenever each
+   KEEP_A / KEEP_B decision is justified at the evaluated point.  Parametric in
+   the number type: for binary32 this is bit-identity. *)
+Theorem C05_push_preserves :
+  forall (num : Type) (O : ops num) (oracle_at : nat -> num -> num -> num -> num) (d : deck)
+         n t v fn,
+    tape_wf d n t -> length v = n -> justified O oracle_at d v fn t ->
+    let t' := tape_push n fn t in
+    let w := eval_tape O oracle_at d (t_clauses t) v in
+    let w' := eval_tape O oracle_at d (t_clauses t') v in
+    sget O w' (t_root t') = sget O w (t_root t) /\
+    (forall c', In c' (t_clauses t') -> sget O w' (c_id c') = sget O w (c_id c')) /\
+    length (t_clauses t') <= length (t_clauses t) /\
+    sub_rewrite (t_clauses t') (t_clauses t) /\
+    tape_wf d n t'.
+Proof. exact @push_preserves. Qed.
+Print Assumptions C05_push_preserves.
+
+(* any depth of nested specialisation *)
+Theorem C05_nested_push :
+  forall (num : Type) (O : ops num) (oracle_at : nat -> num -> num -> num -> num) (d : deck)
+         n v fns t,
+    tape_wf d n t -> length v = n -> all_justified O oracle_at d n v fns t ->
+    let t' := push_all n fns t in
+    tape_wf d n t' /\
+    sget O (eval_tape O oracle_at d (t_clauses t') v) (t_root t')
+    = sget O (eval_tape O oracle_at d (t_clauses t) v) (t_root t) /\
+    length (t_clauses t') <= length (t_clauses t).
+Proof. exact @nested_push. Qed.
+Print Assumptions C05_nested_push.
+
+(* specialising to a point (valueAndPush): decisions read from the values at
+   that point are justified there *)
+Theorem C05_point_push :
+  forall (num : Type) (O : ops num) (oracle_at : nat -> num -> num -> num -> num) (d : deck)
+         n t v,
+    tape_wf d n t -> length v = n -> sel_gt O -> sel_lt O ->
+    let w := eval_tape O oracle_at d (t_clauses t) v in
+    let t' := tape_push n (keep_point O w) t in
+    tape_wf d n t' /\
+    sget O (eval_tape O oracle_at d (t_clauses t') v) (t_root t') = sget O w (t_root t).
+Proof. exact @point_push. Qed.
+Print Assumptions C05_point_push.
+
+(* specialising to a box: decisions read from bounds that enclose the point's
+   slot values are justified at the point, provided the min/max arguments are
+   ordered values (not NaN: the property's own restriction) *)
+Theorem C05_interval_push :
+  forall (num : Type) (O : ops num) (oracle_at : nat -> num -> num -> num -> num) (d : deck)
+         (ok : num -> Prop) n t v lo hi,
+    tape_wf d n t -> length v = n -> ord_laws O ok ->
+    let w := eval_tape O oracle_at d (t_clauses t) v in
+    encloses O lo hi w -> minmax_args_ok O ok (t_clauses t) w ->
+    let t' := tape_push n (keep_interval O lo hi) t in
+    tape_wf d n t' /\
+    sget O (eval_tape O oracle_at d (t_clauses t') v) (t_root t') = sget O w (t_root t).
+Proof. exact @interval_push. Qed.
+Print Assumptions C05_interval_push.
